@@ -87,7 +87,8 @@ pub fn run(req: &mut J) -> Result<J, String> {
             let merged: anyhow::Result<Mapping> = (|| {
                 let mut acc = Mapping::new();
                 for y in ys {
-                    let m = Mapping::from(y);
+                    // the conversion the parsing entry points use (fallible)
+                    let m = verif::mapping_try_from_yaml(y)?;
                     acc.merge(&m)?;
                 }
                 Ok(acc)
